@@ -272,6 +272,12 @@ func TestVerifC03(t *testing.T) {
 		}
 	}
 	clocks := []time.Duration{0}
+	// Every prefix length for pref64.
+	for bits := 0; bits <= 128; bits++ {
+		d := c03Base(false, false)
+		d.Ifaces[0].PREF64[0]["prefix"] = netip.PrefixFrom(netip.MustParseAddr("2001:db8:64::"), bits).Masked().String()
+		one([]string{fmt.Sprintf("pref64.prefix=/%d", bits)}, d, 0)
+	}
 	for _, wild := range []bool{false, true} {
 		for _, dep := range []bool{false, true} {
 			cl := clocks
